@@ -6,6 +6,7 @@ import NloptModel.Model.WrapDriver
 import NloptModel.Model.Glue
 import NloptModel.Model.Slsqp
 import NloptModel.Model.Isres
+import NloptModel.Model.Crs
 /-! `nlopt_model <stream>`: line-protocol driver.  Reads operation lines on stdin, prints one
     canonical result line per operation.  Arithmetic is the hardware's (through `Float`). -/
 open Nlopt
@@ -48,6 +49,7 @@ structure IncSt where
   s : Slsqp.Inc := {}
   i : Isres.Inc := {}
   k : Nat := 0
+  crs : List F64 := []        -- CRS population (values), newest first as in Model/Crs.lean
 
 def incStep (st : IncSt) (line : String) : IncSt × String :=
   let hx (t : String) : F64 := ((WrapDrv.parseList t).getD []).headD F64.zero
@@ -58,6 +60,9 @@ def incStep (st : IncSt) (line : String) : IncSt × String :=
     ({ st with s := Slsqp.update st.s { f := hx f, feas := feas == "1", infeas := hx infeas, pt := st.k }, k := st.k + 1 }, "")
   | ["i", f, feas, pen, gpen] =>
     ({ st with i := Isres.update st.i { f := hx f, feas := feas == "1", penalty := hx pen, gpenalty := hx gpen, pt := st.k }, k := st.k + 1 }, "")
+  | ["ci", f] => ({ st with crs := st.crs ++ [hx f] }, "")                 -- initial population member (inserted)
+  | ["ct", f] => ({ st with crs := Crs.trial st.crs (hx f) }, "")           -- trial evaluation
+  | ["end", "c"] => (st, s!"{WrapDrv.hexList [Crs.best st.crs]} {st.crs.length}")
   | ["end", "s"] => (st, s!"{WrapDrv.hexList [st.s.minf]} {pt st.s.pt} {if st.s.feasible then 1 else 0}")
   | ["end", "i"] => (st, s!"{WrapDrv.hexList [st.i.minf]} {pt st.i.pt} {WrapDrv.hexList [st.i.pen]}")
   | _ => (st, "bad-op")
